@@ -18,7 +18,7 @@ AXES = {
     "dscale": ["none", "second", "all"],
     "multimc": ["single", "two", "two_scaled"],
     "constraints": ["none", "zero_all", "zero_iv", "only_iv", "zero_src_iv"],
-    "relation": ["none", "iv", "all"],
+    "relation": ["none", "iv", "all", "two"],
     "penalty": ["none", "yes"],
     "residual": ["variable_projection", "non_negative_least_squares"],
     "full": ["no", "yes"],
@@ -105,6 +105,9 @@ def make_spec(o, variant=1, seed=0):
         spec["constraints"].append({"type": "only", "target": "s3", "interval": [3, 4]})  # zeroes s3 at 2 (shared with d1, which has no s3) and 5
     if o["relation"] == "iv":
         spec["relations"].append({"source": "s2", "target": "s3", "parameter": 0.7, "interval": [1, 3]})
+    elif o["relation"] == "two":  # two relations whose intervals follow one another along the axis
+        spec["relations"].append({"source": "s2", "target": "s3", "parameter": 0.7, "interval": [1, 2]})
+        spec["relations"].append({"source": "s2", "target": "s1", "parameter": 0.4, "interval": [3, 5]})
     elif o["relation"] == "all":
         spec["relations"].append({"source": "s2", "target": "s3", "parameter": 0.7, "interval": None})
     if o["penalty"] == "yes":
